@@ -1227,6 +1227,35 @@ pub fn run(thorough: bool, mut rng: Rng, mut out: Out) {
         out.case(&scenario_request(&sc, "-"), n_items + n_calls >= 2);
         out.stat(&format!("random.ending={}", match ending { 0..=5 => "done", 6 | 7 => "closed", 8 => "timeout", _ => "silence" }));
     }
+    // 0. corpus: the two witnesses of finding F23 (fixed in /repo 103366d), as named cases
+    {
+        let pr = |ck: Vec<u8>| vec![RespCtl { paged: true, cookie: Some(ck), tok: 9 }];
+        // (a) finish() in the middle of page 2: chain p2, pages entry+Done{cookie 01}, entry+Done{cookie ""}, calls n n f
+        let pages = vec![
+            Page::Script(vec![Recv::Item(mk_item(K::E, &mut toks, vec![])), Recv::Done(Done { rc: 0, refs: vec![], ctls: pr(vec![1]), tok: toks.next() })]),
+            Page::Script(vec![Recv::Item(mk_item(K::E, &mut toks, vec![])), Recv::Done(Done { rc: 0, refs: vec![], ctls: pr(vec![]), tok: toks.next() })]),
+        ];
+        let sc = Scenario { chain: vec![A::P(2)], handle: Handle::default(), qtok: 1, filter_ok: true, pages, calls: vec![Call::Next, Call::Next, Call::Finish] };
+        let o = check_scenario(&mut out, "streams", &sc, true);
+        out.r("streams.corpus-F23-finish-on-page-2-is-cancelled", o.outputs.last().map(|s| s.starts_with("res:88/")).unwrap_or(false), &format!("{:?}", o.outputs));
+        out.case("corpus F23 a", true);
+        // (b) the follow-up search cannot be submitted (server closes after page 1's Done): n n f
+        let pages = vec![
+            Page::Script(vec![Recv::Item(mk_item(K::E, &mut toks, vec![])), Recv::Done(Done { rc: 0, refs: vec![], ctls: pr(vec![1]), tok: toks.next() }), Recv::Closed]),
+            Page::Fail,
+        ];
+        for chain in [vec![A::P(2)], vec![A::E, A::P(2)], vec![A::P(2), A::E]] {
+            let sc = Scenario { chain, handle: Handle::default(), qtok: 1, filter_ok: true, pages: pages.clone(), calls: vec![Call::Next, Call::Next, Call::State, Call::Finish, Call::State] };
+            let o = check_scenario(&mut out, "streams", &sc, true);
+            out.r(
+                "streams.corpus-F23-finish-after-failed-followup-is-cancelled",
+                o.outputs.iter().any(|s| s == "err:op") && o.outputs.iter().any(|s| s.starts_with("res:88/")),
+                &format!("{:?}", o.outputs),
+            );
+            out.case(&format!("corpus F23 b {}", chain_text(&sc.chain)), true);
+        }
+        out.stat("corpus");
+    }
     // 3. adapted streams with the paging adapter under the same C10 clauses (the detailed paging
     //    checks are lane `paged`): two or three pages, finish() before the end on every page
     let mut paged_cases = 0;
